@@ -11,10 +11,14 @@
      ks_after   (after hwloc__reconnect(KEEPSTRUCTURE)) must equal  Restrict.keepStructure filters (rm_after)
      mem_after  (after propagate_total_memory)          must equal  ks_after with total_memory := Stage.totalsT
      final      (after hwloc_set_group_depth)           must equal  mem_after with group depth := Stage.setGroupDepth
+   after the load, from the public API (harness): `Y <gp> <symmetric_subtree> <depth> <arity>` per normal object (depth-first through
+   normal children) and `ENDY <id>`: must equal Stage.symmetricStage (tree of `final`), with depth = level index in connectLevels and
+   arity = number of normal children ("okY …" | "DIFFY …")
    `LOADED <id> <0|1>` closes a case: a rm_before block that is not followed by rm_after must be one whose root the model removes. -/
 import Hw.Topo.StageRemoveEmpty
 import Hw.Topo.StageMemory
 import Hw.Topo.StageGroup
+import Hw.Topo.StageSymmetric
 import Driver.Util
 import Std.Data.HashMap
 namespace Driver.Stage2Eng
@@ -134,6 +138,7 @@ structure St2 where
   lines : List L2 := []                                          -- reversed
   prev : Option Block := none
   rmPending : Option Bool := none      -- a rm_before block is waiting for rm_after: `some rootRemoved`
+  ys : List (Nat × Nat × Int × Nat) := []                        -- reversed Y lines: gp, flag, depth, arity
 deriving Inhabited
 
 def parseFilters (s : String) : Option (List Nat) :=
@@ -230,8 +235,45 @@ def endBlock (s : St2) (name : String) : St2 × String :=
             (next, s!"ok2 final objs={b.nobjs} groups={gds.length} grouplevels={glevels}")
         else (next, "bad-op")
 
+mutual
+partial def aritiesT : Tree → List (Nat × Nat)
+  | .node o ns _ _ _ => (o.gp, ns.length) :: aritiesL ns
+partial def aritiesL : List Tree → List (Nat × Nat)
+  | [] => []
+  | t :: ts => aritiesT t ++ aritiesL ts
+end
+
+/-- the public symmetric_subtree flags against the model of hwloc_propagate_symmetric_subtree on the `final` tree -/
+def endY (s : St2) : St2 × String :=
+  let ys := s.ys.reverse
+  let s' : St2 := { s with ys := [] }
+  match s.prev with
+  | none => (s', "okY absent")
+  | some b =>
+    if b.name ≠ "final" then (s', "okY absent") else
+    -- RESTRICT_TO_CPUBINDING / RESTRICT_TO_MEMBINDING (16, 32) change the tree after hwloc_discover
+    if b.flags &&& 48 != 0 then (s', "okY skipped") else
+    let levels := connectLevels b.tree
+    let dep := depthIn levels
+    let exp := symmetricStage b.tree
+    let ar := aritiesT b.tree
+    let expRows := (exp.zip ar).map (fun (p, a) => s!"{p.1} {if p.2 then 1 else 0} {depthOfGp levels p.1} {a.2}")
+    let gotRows := ys.map (fun (g, f, d, a) => s!"{g} {f} {d} {a}")
+    if exp.length ≠ ar.length then (s', "DIFFY internal: visited objects") else
+    if expRows ≠ gotRows then (s', "DIFFY " ++ firstDiff expRows gotRows 0)
+    else
+      let asym := (exp.filter (fun p => !p.2)).length
+      let multi := (ar.filter (fun a => a.2 ≥ 2)).length
+      let unif := if (symT dep b.tree) == (exp.all (·.2)) then 1 else 0
+      (s', s!"okY n={exp.length} asym={asym} multi={multi} rootsym={if symT dep b.tree then 1 else 0} allsame={unif}")
+
 def step (s : St2) (t : List String) : St2 × String :=
   match t with
+  | ["Y", gp, f, d, a] =>
+    match parseNat gp, parseNat f, parseInt d, parseNat a with
+    | some gp, some f, some d, some a => ({ s with ys := (gp, f, d, a) :: s.ys }, ".")
+    | _, _, _, _ => (s, "bad-op")
+  | ["ENDY", _] => endY s
   | ["STAGE2", name, flags, filters, ac, an] =>
     match parseNat flags, parseFilters filters with
     | some f, some fl =>
